@@ -6,6 +6,9 @@ CHECKERS = dict(C02_rt.CHECKERS)
 
 
 def run(ctx):
+    from vf.pyvc import crosscheck_sym
+
+    crosscheck_sym.guard(ctx)  # the symbolic-shape tensor layer against real torch, before the clauses that rest on it
     api.run_vcs(ctx, C02_vc.p_vcs(ctx), {"C02.P.edits_between_fewest_and_most": "real error_rate -> _string_matching(return_mistakes) source for SYMBOLIC shapes R, H, N: the count returned lies between the fewest and the most edits of minimum-cost alignments (nested invariants: hypothesis loop and the sequential deletion pass), norm and empty-reference convention; 4 flag configurations, unequal costs"})
     api.run_vcs(ctx, C02_vc.vcs(ctx), {"C02.S.edits_of_min_cost_alignment": "real error_rate/prefix_error_rates source: result within [fewest, most] edits of minimum-cost alignments; = unit Levenshtein for equal costs; norm and empty-reference convention; padding"},
                 bounded="shapes R,H in 0..%d (N=2 when R+H<=1 else 1), flag grid; ALL token values, eos values, positive real cost triples, padding values" % (2 if ctx.quick else 3))
